@@ -111,6 +111,20 @@ theorem step_oks (s : St) (op : Op) :
       · rename_i o ho
         rcases validate_ne_ok s mem hdr o ho with rfl | rfl <;> simp [isOkOut]
       · simp [isOkOut]
+  | putConfig m hdr body =>
+    rw [step_readonly s _ (Or.inr (Or.inl ⟨m, hdr, body, rfl⟩))]
+    simp only [step]
+    split
+    · simp [isOkOut]
+    · rename_i mem hm
+      split
+      · rename_i o ho
+        rcases validate_ne_ok s mem hdr o ho with rfl | rfl <;> simp [isOkOut]
+      · repeat' split
+        all_goals simp [isOkOut]
+  | tso m hdrs =>
+    rw [step_readonly s _ (Or.inr (Or.inr ⟨m, hdrs, rfl⟩))]
+    simp only [step]; split <;> simp [isOkOut]
 
 /-- **at most one request is ever answered `ok`** – over the answers of any history (any members, requests,
     interleaving, leader changes, transaction faults). -/
@@ -159,6 +173,8 @@ theorem loser_changes_nothing (cid n l : Nat) (ops : List Op) (op : Op) :
   | lead m => left; simp only [step]; split <;> rfl
   | isBoot m hdr => left; simp only [step]; repeat' split
                     all_goals rfl
+  | putConfig m hdr body => left; rw [step_readonly s _ (Or.inr (Or.inl ⟨m, hdr, body, rfl⟩))]
+  | tso m hdrs => left; rw [step_readonly s _ (Or.inr (Or.inr ⟨m, hdrs, rfl⟩))]
   | commit r f =>
     simp only [step]
     split
@@ -235,6 +251,76 @@ theorem foreign_cluster_id_refused (s : St) (m hdr : Nat) (p : Payload) (hf : hd
     split
     · simp
     · next mem hm => rcases hv mem with h | h <;> simp [h]
+
+/-- **foreign_cluster_id_refused, the other handlers.**  PutClusterConfig: a foreign cluster id in the header is
+    refused like everywhere else, and a foreign cluster id in the BODY (the metapb.Cluster to be stored) is never
+    accepted either; in every case the state – in particular the stored cluster meta – is untouched.  Tso: on one
+    stream EVERY request is compared, a request naming another cluster is never answered with a timestamp
+    whatever was accepted before it on the same stream. -/
+theorem foreign_cluster_id_refused_config (s : St) (m hdr body : Nat) (hf : hdr ≠ s.cid ∨ body ≠ s.cid) :
+    (step s (.putConfig m hdr body)).1 = s ∧ (step s (.putConfig m hdr body)).2 ≠ .cfg .ok := by
+  refine ⟨step_readonly s _ (Or.inr (Or.inl ⟨m, hdr, body, rfl⟩)), ?_⟩
+  simp only [step]
+  split
+  · simp
+  · rename_i mem hm
+    split
+    · simp
+    · rename_i hv
+      have hh : hdr = s.cid := by
+        unfold validate at hv
+        split at hv
+        · simp at hv
+        · split at hv
+          · simp at hv
+          · rename_i h2; simpa using h2
+      have hb : body ≠ s.cid := by
+        rcases hf with h | h
+        · exact absurd hh h
+        · exact h
+      split
+      · simp
+      · simp [hb]
+
+theorem tsoRun_foreign (cid : Nat) (leader : Bool) (hdrs : List Nat) :
+    ∀ (i h : Nat), hdrs[i]? = some h → h ≠ cid → ∃ a, (tsoRun cid leader hdrs)[i]? = some a ∧ a ≠ .ts := by
+  induction hdrs with
+  | nil => intro i h hi; simp at hi
+  | cons x xs ih =>
+    intro i h hi hne
+    unfold tsoRun
+    by_cases hx : x ≠ cid
+    · rw [if_pos hx]
+      cases i with
+      | zero => exact ⟨.mismatch, by simp, by simp⟩
+      | succ j =>
+        simp only [List.getElem?_cons_succ] at hi ⊢
+        have hj : j < xs.length := lt_len _ _ _ hi
+        exact ⟨.closed, by simp [hj], by simp⟩
+    · rw [if_neg hx]
+      cases hl : leader with
+      | false =>
+        simp only [Bool.not_false, if_true]
+        cases i with
+        | zero => simp at hi; exact absurd hi.symm (fun e => hx (e ▸ hne))
+        | succ j =>
+          simp only [List.getElem?_cons_succ] at hi ⊢
+          have hj : j < xs.length := lt_len _ _ _ hi
+          exact ⟨.closed, by simp [hj], by simp⟩
+      | true =>
+        simp only [Bool.not_true, Bool.false_eq_true, if_false]
+        cases i with
+        | zero => simp at hi; exact absurd hi.symm (fun e => hx (e ▸ hne))
+        | succ j =>
+          simp only [List.getElem?_cons_succ] at hi ⊢
+          rw [← hl]; exact ih j h hi hne
+
+theorem foreign_cluster_id_refused_tso (s : St) (m : Nat) (mem : Member) (hdrs : List Nat)
+    (hm : s.members[m]? = some mem) :
+    step s (.tso m hdrs) = (s, .tso (tsoRun s.cid mem.leader hdrs)) ∧
+    ∀ (i h : Nat), hdrs[i]? = some h → h ≠ s.cid →
+      ∃ a, (tsoRun s.cid mem.leader hdrs)[i]? = some a ∧ a ≠ .ts :=
+  ⟨by simp [step, hm], tsoRun_foreign s.cid mem.leader hdrs⟩
 
 /-- **some request does succeed**: a well-formed request for this cluster that reaches a leader whose raft
     cluster is not running, while nothing is stored yet, is accepted when its three steps run (whatever other
